@@ -1,6 +1,7 @@
 """Run-level (refinement) correspondence: run the real optimisers under external taps, turn what
 the taps saw into an event history for the abstract optimiser machine (Lean driver), and apply
 the direct property oracles of C01 C02 C03 C04 C07 C12 C15 C20 to the same recording."""
+import copy as _copy
 import hashlib, json, math, os, pickle, random, sys, time, traceback, copy as _copy
 from common import (fkey, fbits, enc_pos, enc_ints, enc_keys, Driver, WORK, REPO, HERE, SEED)
 import lib
@@ -551,7 +552,11 @@ def build_task(L, cfg, events):
     np = L['np']
     np.random.seed(cfg['seed'] % (2 ** 32))
     kind = cfg['kind']
-    if cfg['space'] == 'search':
+    if cfg['space'] == 'search' and cfg.get('bounds_dtype'):
+        # the bounds handed over as NumPy arrays of a narrow type (whole numbers)
+        sp = L['SearchSpace'](n_agents=cfg['n_agents'], n_variables=cfg['n_vars'], n_iterations=cfg['n_iter'],
+                              lower_bound=np.array(cfg['lb'], dtype=cfg['bounds_dtype']), upper_bound=np.array(cfg['ub'], dtype=cfg['bounds_dtype']))
+    elif cfg['space'] == 'search':
         sp = L['SearchSpace'](n_agents=cfg['n_agents'], n_variables=cfg['n_vars'], n_iterations=cfg['n_iter'],
                               lower_bound=list(cfg['lb']), upper_bound=list(cfg['ub']))
     elif cfg['space'] == 'hyper':
@@ -562,6 +567,10 @@ def build_task(L, cfg, events):
                             n_iterations=cfg['n_iter'], min_depth=cfg['min_depth'], max_depth=cfg['max_depth'],
                             functions=list(cfg['functions']), lower_bound=list(cfg['lb']),
                             upper_bound=list(cfg['ub']))
+    if cfg.get('reassign_bounds'):
+        # the bounds re-declared (with the same values) through the space's public setters after construction
+        sp.lb = np.asarray(list(cfg['lb']))
+        sp.ub = np.asarray(list(cfg['ub']))
     if cfg.get('int_start') and cfg['space'] != 'tree':
         # a deterministic lattice start: every agent's position assigned (through the public setter) as an integer-typed
         # array of whole numbers inside the box
@@ -698,6 +707,18 @@ def record_run(cfg):
                     s.trees = [s.trees[q] for q in order]
                 if REC.local is not None and REC.kind in SWARM:
                     REC.local[:] = REC.local[order]
+            elif cfg['hook'] == 'rebest':
+                # the best agent replaced, through the public setter, by an equal new object (as a hook injecting / restoring a
+                # known solution would do): from now on that object is the space's best agent
+                s.best_agent = _copy.deepcopy(s.best_agent)
+            elif cfg['hook'] == 'append' and len(s.agents) == cfg['n_agents'] and len(events) > 0 and sum(1 for e_ in events if e_['t'] == 'hook') == 1:
+                # the population grows by one individual (a perturbed copy of the first, inside the box) at the second hook call:
+                # the sweeps that follow evaluate the population as it is now
+                new = _copy.deepcopy(s.agents[0])
+                for j in range(new.position.shape[0]):
+                    lo, hi = (0.0, 1.0) if cfg['space'] == 'hyper' else (float(new.lb[j]), float(new.ub[j]))
+                    new.position[j] = lo + 0.37 * (hi - lo)
+                s.agents.append(new)
             elif cfg['hook'] == 'swap' and len(s.agents) > 1:
                 i, j = hook_rng.sample(range(len(s.agents)), 2)
                 s.agents[i], s.agents[j] = s.agents[j], s.agents[i]
@@ -764,7 +785,12 @@ def record_run(cfg):
     try:
         rec['init'] = snapshot(L)
         t0 = time.time()
-        h = task.start(store_best_only=cfg['store_best_only'], pre_evaluation_hook=hook)
+        sbo = cfg['store_best_only']
+        if cfg.get('sbo_type') == 'np':
+            sbo = np.bool_(sbo)            # a flag computed with NumPy (`np.prod(sizes) > 500`)
+        elif cfg.get('sbo_type') == 'int':
+            sbo = int(sbo)
+        h = task.start(store_best_only=sbo, pre_evaluation_hook=hook)
         rec['history'] = h
         rec['final'] = snapshot(L)
         rec['final_live'] = live_checks(L, sp, cfg)
